@@ -203,7 +203,7 @@ def all_substitutions(s):
                 yield s[:i] + bytes([c]) + s[i + 1:]
 
 
-def cases(rng, tier):
+def _cases(rng, tier):
     thorough = tier == "thorough"
 
     def both(b):
@@ -267,6 +267,35 @@ def cases(rng, tier):
             yield from both(b"GET" + s + b"\n")
             if thorough:
                 yield from both(b"GET /" + s + b"TTP/1.1\r\n")
+
+
+def cases(rng, tier):
+    """the generated cases, with those that carry a known-finding signature moved to the end: the framework examines the
+    first failing cases in order, so failures outside the known regions must come first to be seen"""
+    late = []
+    for l in _cases(rng, tier):
+        if classify(l, "", "") is not None:
+            late.append(l)
+        else:
+            yield l
+    yield from late
+
+
+def shrink(line):
+    """drop bytes, but leave cases that already carry a known-deviation signature as they are"""
+    if classify(line, "", "") is not None:
+        return
+    w = line.split()
+    tk = w[2]
+    if tk == "-":
+        return
+    n = len(tk) // 2
+    step = max(1, n // 2)
+    while step >= 1:
+        for off in range(0, n, step):
+            cand = tk[:off * 2] + tk[(off + step) * 2:]
+            yield "%s %s %s" % (w[0], w[1], cand or "-")
+        step //= 2
 
 
 def nontrivial(line, impl, model):
